@@ -219,8 +219,13 @@ def approx_real(file_t):
              ("vec3_f32", "Vec3<f32>", "Vec3::<f32>::new(any_f32_half_range(), any_f32_half_range(), any_f32_half_range())", "(.x) (.y) (.z)", 3),
              ("vec4_f32", "Vec4<f32>", "Vec4::<f32>::new(any_f32_half_range(), any_f32_half_range(), any_f32_half_range(), any_f32_half_range())", "(.x) (.y) (.z) (.w)", 4),
              ("quat_f32", "Quaternion<f32>", "Quaternion::<f32> { x: any_f32_half_range(), y: any_f32_half_range(), z: any_f32_half_range(), w: any_f32_half_range() }", "(.x) (.y) (.z) (.w)", 4)]
+    H = "any_f32_half_range()"
+    v2 = f"Vec2 {{ x: {H}, y: {H} }}"
+    items.append(("rm2_f32", "RM2<f32>", f"RM2 {{ rows: Vec2 {{ x: {v2}, y: {v2} }} }}", pair_accs(2), 4))
+    items.append(("cm2_f32", "CM2<f32>", f"CM2 {{ cols: Vec2 {{ x: {v2}, y: {v2} }} }}", pair_accs(2), 4))
     for p, ty, mk, accs, n in items:
-        emit(file_t, f"approx_real!{{c20_{p}_abs_diff_eq_real, c20_{p}_relative_eq_real, c20_{p}_ulps_eq_real, w_{p}_abs_diff_eq_real, w_{p}_relative_eq_real, w_{p}_ulps_eq_real, {ty}, {mk}, [{accs}], kissat}}")
+        unw = ", unwind 3" if p[:3] in ("rm2", "cm2") else ""
+        emit(file_t, f"approx_real!{{c20_{p}_abs_diff_eq_real, c20_{p}_relative_eq_real, c20_{p}_ulps_eq_real, w_{p}_abs_diff_eq_real, w_{p}_relative_eq_real, w_{p}_ulps_eq_real, {ty}, {mk}, [{accs}], kissat{unw}}}")
         meta(f"c20_{p}_abs_diff_eq_real", "thorough", f"abs_diff_eq on {ty} == conjunction over elements of the REAL scalar f32 abs_diff_eq (no stub)",
              REAL_DOM + "epsilon any f32", timeout=900)
         meta(f"c20_{p}_relative_eq_real", "thorough", f"relative_eq on {ty} == conjunction over elements of the REAL scalar f32 relative_eq (no stub)",
@@ -273,11 +278,20 @@ def main():
         f = "gen_lifts_quick.rs" if tier == "quick" else "gen_lifts_thorough.rs"
         for T in ("i8", "u8"):
             int_lifts(f, V, fields, T, tier)
-    int_lifts("gen_lifts_thorough.rs", "Vec4", "x y z w", "i32", "thorough")
+    int_lifts("gen_lifts_thorough.rs", "Vec4", "x y z w", "i16", "thorough")
     for V, fields in (("Vec2", "x y"), ("Vec3", "x y z"), ("Vec4", "x y z w")):
         euclid_panics("gen_lifts_quick.rs", V, fields, "i8", "quick")
     euclid_panics("gen_lifts_quick.rs", "Vec4", "x y z w", "u8", "quick")
     euclid_panics("gen_lifts_thorough.rs", "Vec8", nums(8), "i8", "thorough")
+    # ---- Zero / One on float vectors (real scalar semantics)
+    for V, fields, tier, file in (("Vec4", "x y z w", "quick", "gen_lifts_quick.rs"), ("Vec8", nums(8), "thorough", "gen_lifts_thorough.rs")):
+        p = f"{V.lower()}_f32"
+        emit(file, f"lift_zero_one!{{c20_{p}_zero, c20_{p}_is_zero, c20_{p}_one, c20_{p}_is_one, w_{p}_zero, w_{p}_is_zero, w_{p}_one, w_{p}_is_one, {V}<f32> ({fields})}}")
+        d = f"all {V}<f32>: every element any f32 bit pattern (NaN, -0.0 included)"
+        meta(f"c20_{p}_zero", tier, f"<{V}<f32> as Zero>::zero(): every element bit-equal to f32::zero()", "no input", timeout=60)
+        meta(f"c20_{p}_is_zero", tier, f"Zero::is_zero on {V}<f32> == all elements is_zero", d, timeout=60)
+        meta(f"c20_{p}_one", tier, f"<{V}<f32> as One>::one(): every element bit-equal to f32::one()", "no input", timeout=60)
+        meta(f"c20_{p}_is_one", tier, f"One::is_one on {V}<f32> == all elements is_one", d, timeout=60)
     # ---- casts
     for V, fields, tier in VECS:
         f = "gen_casts_quick.rs" if tier == "quick" else "gen_casts_thorough.rs"
